@@ -12,10 +12,9 @@ SPEC = {
          'sinks': {'C15_obs_commit': 'obsc_judge'}, 'n': {'quick': 400, 'thorough': 20000}},
         {'pkg': 'commit', 'src': 'harness/commit/c15_test.go', 'test': 'TestVerif_C15_accept_commit', 'fakes': True,
          'sinks': {'C15_acc_commit': 'acc_judge'}, 'n': {'quick': 400, 'thorough': 20000}},
-        {'pkg': 'execute', 'src': 'harness/execute/c15_test.go', 'test': 'TestVerif_C15_observe_exec', 'fakes': True,
-         'sinks': {'C15_obs_exec': 'obse_judge'}, 'n': {'quick': 400, 'thorough': 20000}},
-        {'pkg': 'execute', 'src': 'harness/execute/c15_test.go', 'test': 'TestVerif_C15_accept_exec', 'fakes': True,
-         'sinks': {'C15_acc_exec': 'acc_judge'}, 'n': {'quick': 400, 'thorough': 20000}},
+        # one part per package: two parts of one package would race on the generated overlay file
+        {'pkg': 'execute', 'src': 'harness/execute/c15_test.go', 'test': 'TestVerif_C15_(observe|accept)_exec', 'fakes': True,
+         'sinks': {'C15_obs_exec': 'obse_judge', 'C15_acc_exec': 'acc_judge'}, 'n': {'quick': 400, 'thorough': 20000}},
     ],
     'known': {'1': 'F30'},
     'rule': 'subj: real getCurseInfoFromCursedSubjects + CurseInfo.NonCursedSourceChains on subject sets of classes none/global/dest/sources/all sources/'
